@@ -599,6 +599,14 @@ func (env *specEnv) call(e *ast.CallExpr) Val {
 			r = sRef(x.T)
 		}
 		return Val{T: "(>= " + r + " " + env.old.alloc + ")", Sort: "Bool"}
+	case "allocated":
+		// allocated(x): the object x refers to exists in the current state (its reference is below the allocation mark)
+		x := arg(0)
+		r := x.T
+		if x.sortIn(sc) == "Slice" {
+			r = sRef(x.T)
+		}
+		return Val{T: "(< " + r + " " + env.st.alloc + ")", Sort: "Bool"}
 	case "unbox":
 		// unbox(ifaceValue, "pkg.Type"): the value of that dynamic type stored in the interface
 		if lit, ok := e.Args[1].(*ast.BasicLit); ok {
